@@ -131,7 +131,7 @@ def wait (cfg : ExecCfg) (killLatency : Nat) (ctxEnd : Time) (b : Behaviour) : W
 
 /-! ## (ii), (iii) the decision of a plugin call -/
 
-inductive Kind | call | writer
+inductive Kind | call | writer | multi
   deriving DecidableEq, Repr, FromJson, ToJson
 
 inductive Command | getMetadata | describeKey | generateSignature | generateEnvelope | verifySignature
@@ -170,6 +170,30 @@ def Meta.empty : Meta := ⟨"", "", "", "", [], []⟩
 inductive Res | ok | pluginError | executableFileError | malformedPluginError | other
   deriving DecidableEq, Repr, FromJson, ToJson
 
+/-- one plugin call: what the plugin (and its descendants) will do, and the caller's context -/
+structure Call where
+  command : Command
+  pluginName : String        -- the name given to NewCLIPlugin
+  executable : Bool          -- the plugin file can be started at all
+  exitCode : Nat
+  stdout : StdoutKind
+  stdoutSize : Nat           -- reply padded (inside a string) to this many bytes; 0 = not padded (small)
+  metadata : Meta
+  stderr : StderrKind
+  stderrSize : Nat           -- error message / metadata padded so that stderr has this many bytes; 0 = not padded
+  errCode : String
+  errMessage : Bool
+  errMetadata : Bool
+  exitAt : Option Nat        -- ms after the start of the call; none = never
+  pipesAt : Option Nat       -- ms; none = never
+  ctxEnd : Option Nat        -- ms; the context is cancelled / expires then; none = never
+  cancel : Bool              -- the context ends by cancellation rather than by its deadline
+  probes : List Nat          -- "had the call returned after this many ms?"
+  -- only meaningful inside a schedule of concurrent calls (kind = multi)
+  startAt : Nat              -- ms after the start of the scenario at which the call is issued
+  exe : Nat                  -- which executable: calls with the same number run the same file
+  deriving Repr, FromJson, ToJson
+
 structure Input where
   kind : Kind
   -- kind = call --------------------------------------------------------------------------
@@ -181,7 +205,7 @@ structure Input where
   stdoutSize : Nat           -- reply padded (inside a string) to this many bytes; 0 = not padded (small)
   metadata : Meta
   stderr : StderrKind
-  stderrSize : Nat           -- error message padded so that stderr has this many bytes; 0 = not padded
+  stderrSize : Nat           -- error message / metadata padded so that stderr has this many bytes; 0 = not padded
   errCode : String
   errMessage : Bool
   errMetadata : Bool
@@ -193,7 +217,29 @@ structure Input where
   -- kind = writer ------------------------------------------------------------------------
   limit : Int
   steps : List WStep
+  -- kind = multi: a schedule of overlapping calls ------------------------------------------
+  calls : List Call
   deriving Repr, FromJson, ToJson
+
+/-- a call of a schedule as a call on its own -/
+def Call.toInput (c : Call) : Input :=
+  { kind := .call, command := c.command, pluginName := c.pluginName, executable := c.executable,
+    exitCode := c.exitCode, stdout := c.stdout, stdoutSize := c.stdoutSize, metadata := c.metadata,
+    stderr := c.stderr, stderrSize := c.stderrSize, errCode := c.errCode, errMessage := c.errMessage,
+    errMetadata := c.errMetadata, exitAt := c.exitAt, pipesAt := c.pipesAt, ctxEnd := c.ctxEnd,
+    cancel := c.cancel, probes := c.probes, limit := 0, steps := [], calls := [] }
+
+/-- what is observed of one call -/
+structure CallObs where
+  result : Res
+  code : String              -- the error code of a structured plugin error, "" otherwise
+  withinCap : Bool           -- what came back (decoded reply / error message) is not larger than the cap (and, for
+                             -- emitters of 500 MB and more, the heap high-water mark stayed near the cap)
+  inTime : Bool              -- returned within ctxEnd + 5 s + 3 s (true when the context never ends)
+  doneBy : List Bool         -- per probe
+  own : Bool                 -- the reply / structured error that came back is, field by field, what this call's
+                             -- own process printed (not the output of another call)
+  deriving DecidableEq, Repr, FromJson, ToJson
 
 structure Obs where
   result : Res
@@ -202,15 +248,17 @@ structure Obs where
                              -- emitters of 500 MB and more, the heap high-water mark stayed near the cap)
   inTime : Bool              -- returned within ctxEnd + 5 s + 3 s (true when the context never ends)
   doneBy : List Bool         -- per probe
+  own : Bool
+  multi : List CallObs       -- kind = multi: per call, in the order of `calls`
   wouts : List WOut          -- kind = writer: what each Write returned
   passed : Nat               --   bytes the underlying writer accepted in total
   remaining : Int            --   l.N at the end
   deriving DecidableEq, Repr, FromJson, ToJson
 
-/-- padding applies to a reply / to an error message only -/
+/-- padding applies to a reply / to the message (else the metadata) of an error object only -/
 def effOutSize (i : Input) : Nat := if i.stdout == .reply then i.stdoutSize else 0
 def effErrSize (i : Input) : Nat :=
-  if i.stderr == .errorObject && i.errMessage then i.stderrSize else 0
+  if i.stderr == .errorObject && (i.errMessage || i.errMetadata) then i.stderrSize else 0
 
 /-- the limit writer reports an error to the copying goroutine iff more than the limit arrives -/
 def over (limit : Option Nat) (size : Nat) : Bool :=
@@ -283,17 +331,30 @@ def runCall (cfg : ExecCfg) (i : Input) : Obs :=
       | none => true
       | some c => tle w.ret (some (c + specDelayMs + marginMs)),
     doneBy := i.probes.map (fun p => tle w.ret (some p)),
-    wouts := [], passed := 0, remaining := 0 }
+    own := true, multi := [], wouts := [], passed := 0, remaining := 0 }
 
 def runWriter (i : Input) : Obs :=
   let r := lwRun i.limit i.steps
-  { result := .ok, code := "", withinCap := true, inTime := true, doneBy := [],
+  { result := .ok, code := "", withinCap := true, inTime := true, doneBy := [], own := true, multi := [],
     wouts := r.2, passed := total r.2, remaining := r.1 }
+
+def callObsOf (o : Obs) : CallObs :=
+  { result := o.result, code := o.code, withinCap := o.withinCap, inTime := o.inTime, doneBy := o.doneBy,
+    own := o.own }
+
+/-- a schedule of overlapping calls: `run` and `execCommander.Output` keep no state between calls
+(`Facts.runGlobals`), every call has its own process, pipes, buffers and timers - so each call
+behaves as if it were alone, with all times counted from its own start -/
+def runMulti (cfg : ExecCfg) (i : Input) : Obs :=
+  { result := .ok, code := "", withinCap := true, inTime := true, doneBy := [], own := true,
+    multi := i.calls.map (fun c => callObsOf (runCall cfg c.toInput)),
+    wouts := [], passed := 0, remaining := 0 }
 
 def runWith (cfg : ExecCfg) (i : Input) : Obs :=
   match i.kind with
   | .call => runCall cfg i
   | .writer => runWriter i
+  | .multi => runMulti cfg i
 
 def run (i : Input) : Obs := runWith codeCfg i
 
@@ -324,25 +385,39 @@ def outsOk : Int → List WStep → List WOut → Bool
     outsOk (N - (o.n : Int)) ss os
   | _, _, _ => false
 
-def clauses (i : Input) (o : Obs) : Clauses :=
-  let call := i.kind == .call
-  let writer := i.kind == .writer
+/-- the clauses about one call -/
+def callClauses (i : Input) (o : CallObs) : Clauses :=
   [ ("ok_only_if_clean_exit_and_reply_of_expected_shape",
-      !(call && o.result == .ok) || (exitedOk i && decodes i.stdout)),
+      !(o.result == .ok) || (exitedOk i && decodes i.stdout)),
     ("metadata_ok_only_if_validated_and_named_like_the_plugin",
-      !(call && o.result == .ok && i.command == .getMetadata) || specMetaOk i),
+      !(o.result == .ok && i.command == .getMetadata) || specMetaOk i),
     ("failing_process_gives_structured_or_typed_error",
-      !(call && !exitedOk i) ||
+      exitedOk i ||
         (if printedStructured i then o.result == .pluginError && o.code == i.errCode
          else o.result == .executableFileError || o.result == .malformedPluginError)),
     ("over_cap_reply_is_never_accepted",
-      !(call && decide (specCap < effOutSize i)) || o.result != .ok),
-    ("returned_data_within_cap", !call || o.withinCap),
-    ("returns_within_bound_of_context_end", !(call && i.ctxEnd.isSome) || o.inTime),
-    ("writer_total_within_limit", !writer || decide (o.passed ≤ i.limit.toNat)),
+      !(decide (specCap < effOutSize i)) || o.result != .ok),
+    ("returned_data_within_cap", o.withinCap),
+    ("returned_data_is_the_own_process_output", o.own),
+    ("returns_within_bound_of_context_end", !i.ctxEnd.isSome || o.inTime) ]
+
+/-- every call of a schedule satisfies the clauses of a call - with its own deadline -/
+def multiOk : List Call → List CallObs → Bool
+  | [], [] => true
+  | c :: cs, o :: os => (callClauses c.toInput o).holds && multiOk cs os
+  | _, _ => false
+
+def guard (g : Bool) (c : Clauses) : Clauses := c.map (fun nb => (nb.1, !g || nb.2))
+
+def clauses (i : Input) (o : Obs) : Clauses :=
+  let writer := i.kind == .writer
+  guard (i.kind == .call) (callClauses i (callObsOf o)) ++
+  [ ("writer_total_within_limit", !writer || decide (o.passed ≤ i.limit.toNat)),
     ("writer_accounts_for_every_byte",
       !writer || (o.passed == total o.wouts && o.remaining == i.limit - (o.passed : Int))),
-    ("writer_each_write_within_request_and_budget", !writer || outsOk i.limit i.steps o.wouts) ]
+    ("writer_each_write_within_request_and_budget", !writer || outsOk i.limit i.steps o.wouts),
+    ("every_concurrent_call_is_contained_on_its_own",
+      !(i.kind == .multi) || multiOk i.calls o.multi) ]
 
 def Holds (i : Input) (o : Obs) : Bool := (clauses i o).holds
 
